@@ -69,6 +69,7 @@ func runParallel(k *K, goroutines int, work func(g int, r *rand.Rand) string) {
 //     deliver exactly its own records;
 //  3. a parallel phase: eight goroutines do independent write -> read round
 //     trips at the same time (-race build: any race report is a violation).
+//
 // Whatever an abnormal end leaves behind in pools, caches or package-level
 // state must not leak into readers that are opened later.
 func codecParallel(formats ...string) func(c *Ctx) {
